@@ -256,7 +256,8 @@ class World:
                             if self.dirmove_after_create and sd == s and self.path_style[s] and self._only_created_below(s, p, a[0]):
                                 continue
                             return "DIRMOVE_ISOLATED"
-        stale = win.dirty_side[s] if self.stale_strict else win.consumed[s]
+        # (an object CREATED in this window counts at once: its first path stays behind as a ghost entry -- KF-43b)
+        stale = win.dirty_side[s] if self.stale_strict else (win.consumed[s] | win.created[s])
         if "STALE_PATHSTYLE" in H and self.path_style[s] and stale:
             # open finding KF-43: on a path-style side an object whose change the engine has already been told about
             # (its side's event loop ran) but has not synced yet must not leave its path before the next quiet point
